@@ -433,6 +433,34 @@ def _r6_option_condition_is_equality(ctx, C1):
         ctx.check(not bad and not other, "R6", "option-condition-holds-on-equality-only", ctx.where(b, (bad or other or [(0, tm.get("sp"))])[0][1]),
                   "in the loop over the option conditions the decision becomes true outside an equality test (%d place(s)) or is computed by "
                   "something else (%s)" % (len(bad), [x[2] for x in other] or "nothing"))
+    if n == 0:
+        # the decision is not kept in a boolean (or jump threading has folded it into the control flow): then it is the edge itself —
+        # the block of the loop where the outcome becomes MatchSucceeded is reached only across the true edge of an equality test
+        # or the edge where the request was found not to carry the option
+        eq_true, absent, absent_any, wanted_null = [], [], [], []
+        inloop = set().union(*loops) if loops else set()
+        for b2, d, te, fe2 in bool_switches(P, b, lambda d: d[0] == "call" and str(d[1]).endswith("::eq")):
+            if b2 in inloop:
+                eq_true += te
+        for b2, t2 in b.terms():
+            if t2["k"] == "switch" and b2 in inloop:
+                d = norm(T.at_term(t2["discr"], b2))
+                if d[0] == "discr" and norm(d[1])[0] == "call" and str(norm(d[1])[1]).endswith("::get"):
+                    absent_any.append((b2, discr_edges(cfg, b2, 0)))
+                elif d[0] == "discr" and not any(y[0] == "call" and str(y[1]).endswith("::get") for y in subterms(norm(d[1]))) and \
+                        not (norm(d[1])[0] == "call" and str(norm(d[1])[1]).endswith("::next")):
+                    wanted_null += discr_edges(cfg, b2, 0)
+        # "the request does not carry the option" satisfies a condition only where the configured value was found to be `null`
+        for b2, es in absent_any:
+            if edge_dominated(cfg, wanted_null, b2):
+                absent += es
+        for bb, idx, st in b.stmts():
+            if bb in inloop and st.get("rv") and st["rv"]["k"] == "agg" and st["rv"].get("variant") == "MatchSucceeded":
+                n += 1
+                ctx.check(bb not in cfg.reachable_avoiding_edges(0, set(eq_true) | set(absent)),
+                          "R6", "option-condition-holds-on-equality-only", ctx.where(b, st["sp"]),
+                          "in the loop over the option conditions the outcome becomes MatchSucceeded on a path that crosses neither the "
+                          "true edge of an equality test nor the edge where the option is absent from the request")
     ctx.floor("R6", "decision of the option-condition loop", n, 1)
     # the two conditions outside the loop fail the policy at once: a hardware address that differs, a receiving address outside
     # `match-subnet`, lead to `return MatchFailed` — not to a note that a later condition may overwrite
